@@ -195,5 +195,199 @@ theorem lsolveBlock_inv (w ldm ncol : Nat) (rd : Array K → Nat → K) (ro fc :
         rw [hhi i (le_refl _) hin, ← hz i hin]
   · rw [rg i hin, if_pos ⟨hi, by omega⟩, a1g, if_neg (by omega), hhi i (by omega) hin, Finset.sum_range_add, sub_sub]
 
+theorem lsolveWhile_inv (w ldm ncol : Nat) (rd : Array K → Nat → K) (ro : Nat) (rhs : Array K)
+    (B : Nat → Nat → K) (z : Nat → K) (hb : ro + ncol ≤ rhs.size)
+    (hrd : ∀ s, Frame rhs ro ncol s → ∀ i j, j < i → i < ncol → rd s (j * ldm + i) = B i j)
+    (hz : ∀ i, i < ncol → z i = rhs[ro + i]! - ∑ j ∈ range i, z j * B i j) (hw1 : 1 ≤ w) :
+    ∀ (fuel : Nat) (st : Array K × Nat), LInv B z rhs ro ncol st.2 st.1 → st.2 ≤ ncol → ncol ≤ fuel + st.2 →
+      LInv B z rhs ro ncol (lsolveWhile w ldm ncol rd ro fuel st).2 (lsolveWhile w ldm ncol rd ro fuel st).1 ∧
+      (lsolveWhile w ldm ncol rd ro fuel st).2 ≤ ncol ∧ ncol ≤ (lsolveWhile w ldm ncol rd ro fuel st).2 + (w - 1) := by
+  intro fuel
+  induction fuel with
+  | zero => intro st inv h1 h2; exact ⟨inv, h1, by simp only [lsolveWhile]; omega⟩
+  | succ fuel ih =>
+    intro st inv h1 h2
+    rw [lsolveWhile]
+    by_cases hc : st.2 + (w - 1) < ncol
+    · rw [if_pos hc]
+      exact ih (lsolveBlock w ldm ncol rd st.1 ro st.2, st.2 + w)
+        (lsolveBlock_inv w ldm ncol rd ro st.2 rhs B z hb hrd hz st.1 inv (by omega) hw1) (by simp only; omega) (by simp only; omega)
+    · rw [if_neg hc]; exact ⟨inv, h1, by omega⟩
+
+/-- **`lsolve`, every `ncol`, both unrolling schemes**: the cells `ro .. ro+ncol-1` hold the solution
+`z` of the unit lower triangular system, everything else is as before -/
+theorem lsolveG_spec (cplx : Bool) (ldm ncol : Nat) (rd : Array K → Nat → K) (ro : Nat) (rhs : Array K)
+    (B : Nat → Nat → K) (z : Nat → K) (hb : ro + ncol ≤ rhs.size)
+    (hrd : ∀ s, Frame rhs ro ncol s → ∀ i j, j < i → i < ncol → rd s (j * ldm + i) = B i j)
+    (hz : ∀ i, i < ncol → z i = rhs[ro + i]! - ∑ j ∈ range i, z j * B i j) :
+    (lsolveG cplx ldm ncol rd rhs ro).size = rhs.size ∧
+    (∀ i, i < ncol → (lsolveG cplx ldm ncol rd rhs ro)[ro + i]! = z i) ∧
+    (∀ p, (p < ro ∨ ro + ncol ≤ p) → (lsolveG cplx ldm ncol rd rhs ro)[p]! = rhs[p]!) := by
+  have fin : ∀ (fc : Nat) (s : Array K), LInv B z rhs ro ncol fc s → fc ≤ ncol → ncol ≤ fc + 1 →
+      s.size = rhs.size ∧ (∀ i, i < ncol → s[ro + i]! = z i) ∧ (∀ p, (p < ro ∨ ro + ncol ≤ p) → s[p]! = rhs[p]!) := by
+    intro fc s inv h1 h2
+    refine ⟨inv.1.1, fun i hi => ?_, inv.1.2⟩
+    by_cases hfc : i < fc
+    · exact inv.2.1 i hfc hi
+    · have : i = fc := by omega
+      subst this
+      rw [inv.2.2 i (le_refl _) hi, ← hz i hi]
+  have inv0 : LInv B z rhs ro ncol 0 rhs :=
+    ⟨⟨rfl, fun _ _ => rfl⟩, fun i hi => absurd hi (by omega), fun i _ _ => by simp⟩
+  have h8 : ∀ st : Array K × Nat, LInv B z rhs ro ncol st.2 st.1 → st.2 ≤ ncol → st.2 = 0 →
+      LInv B z rhs ro ncol (if cplx then st else lsolveWhile 8 ldm ncol rd ro ncol st).2
+        (if cplx then st else lsolveWhile 8 ldm ncol rd ro ncol st).1 ∧
+      (if cplx then st else lsolveWhile 8 ldm ncol rd ro ncol st).2 ≤ ncol := by
+    intro st inv h1 h0
+    cases cplx with
+    | true => exact ⟨inv, h1⟩
+    | false =>
+      have := lsolveWhile_inv 8 ldm ncol rd ro rhs B z hb hrd hz (by omega) ncol st inv h1 (by omega)
+      exact ⟨this.1, this.2.1⟩
+  unfold lsolveG
+  dsimp only
+  obtain ⟨i1, b1⟩ := h8 (rhs, 0) inv0 (Nat.zero_le _) rfl
+  generalize (if cplx = true then (rhs, 0) else lsolveWhile 8 ldm ncol rd ro ncol (rhs, 0)) = s1 at i1 b1
+  obtain ⟨i2, b2, c2⟩ := lsolveWhile_inv 4 ldm ncol rd ro rhs B z hb hrd hz (by omega) ncol s1 i1 b1 (by omega)
+  generalize lsolveWhile 4 ldm ncol rd ro ncol s1 = s2 at i2 b2 c2
+  by_cases hc : s2.2 + 1 < ncol
+  · rw [if_pos hc]
+    exact fin (s2.2 + 2) _ (lsolveBlock_inv 2 ldm ncol rd ro s2.2 rhs B z hb hrd hz s2.1 i2 (by omega) (by omega)) (by omega) (by omega)
+  · rw [if_neg hc]
+    exact fin s2.2 _ i2 b2 (by omega)
+
 end lsolve
+
+/-! ### matvec -/
+section matvec
+variable {K : Type} [Field K] [Inhabited K]
+
+theorem mapRange_spec (n : Nat) (F : Nat → K → K) (y : Array K) :
+    ((List.range n).foldl (fun (y : Array K) k => y.setIfInBounds k (F k y[k]!)) y).size = y.size ∧
+    ∀ p, ((List.range n).foldl (fun (y : Array K) k => y.setIfInBounds k (F k y[k]!)) y)[p]! =
+      if p < n ∧ p < y.size then F p y[p]! else y[p]! := by
+  induction n with
+  | zero => exact ⟨rfl, fun p => by simp only [List.range_zero, List.foldl_nil]; rw [if_neg (by omega)]⟩
+  | succ n ih =>
+    obtain ⟨h1, h2⟩ := ih
+    rw [List.range_succ, List.foldl_append]
+    simp only [List.foldl_cons, List.foldl_nil]
+    refine ⟨by simp [h1], fun p => ?_⟩
+    rw [getElem!_setIfInBounds, h1, h2 p, h2 n, if_neg (show ¬ (n < n ∧ n < y.size) by omega)]
+    by_cases hp : n = p
+    · subst hp
+      by_cases hs : n < y.size
+      · rw [if_pos ⟨rfl, hs⟩, if_pos ⟨by omega, hs⟩]
+      · rw [if_neg (by omega), if_neg (by omega), if_neg (by omega)]
+    · rw [if_neg (by omega)]
+      by_cases hc : p < n ∧ p < y.size
+      · rw [if_pos hc, if_pos ⟨by omega, hc.2⟩]
+      · rw [if_neg hc, if_neg (by omega)]
+
+/-- both shapes of the unrolled statement are `yk + Σ_t v_t m_t` in exact arithmetic -/
+theorem matvecCell_eq (cplx : Bool) (w ldm : Nat) (M : Array K) (mo : Nat) (vec : Array K) (vo fc k : Nat) (yk : K)
+    (hw : 1 ≤ w) :
+    matvecCell cplx w ldm M mo vec vo fc k yk =
+      yk + ∑ t ∈ range w, vec[vo + (fc + t)]! * M[mo + ((fc + t) * ldm + k)]! := by
+  unfold matvecCell
+  cases cplx with
+  | true => rw [if_pos rfl, foldl_add_range_congr w _ _ yk (fun _ _ => rfl)]
+  | false =>
+    rw [if_neg (by simp), foldl_add_range_congr (w - 1) _ _ _ (fun _ _ => rfl)]
+    obtain ⟨w', rfl⟩ : ∃ w', w = w' + 1 := ⟨w - 1, by omega⟩
+    rw [Finset.sum_range_succ' _ w']
+    simp only [Nat.add_sub_cancel, Nat.add_zero]
+    ring
+
+/-- invariant of `matvec` after the columns `< fc` -/
+def MInv (M : Array K) (mo ldm : Nat) (vec : Array K) (vo nrow : Nat) (y0 : Array K) (fc : Nat) (y : Array K) : Prop :=
+  y.size = y0.size ∧ (∀ k, k < nrow → y[k]! = y0[k]! + ∑ j ∈ range fc, vec[vo + j]! * M[mo + (j * ldm + k)]!) ∧
+  (∀ p, nrow ≤ p → y[p]! = y0[p]!)
+
+theorem matvecBlock_inv (cplx : Bool) (w ldm nrow : Nat) (M : Array K) (mo : Nat) (vec : Array K) (vo fc : Nat)
+    (y0 y : Array K) (hb : nrow ≤ y0.size) (hw : 1 ≤ w) (inv : MInv M mo ldm vec vo nrow y0 fc y) :
+    MInv M mo ldm vec vo nrow y0 (fc + w) (matvecBlock cplx w ldm nrow M mo vec vo fc y) := by
+  obtain ⟨h1, h2, h3⟩ := inv
+  obtain ⟨g1, g2⟩ := mapRange_spec nrow (fun k yk => matvecCell cplx w ldm M mo vec vo fc k yk) y
+  unfold matvecBlock
+  refine ⟨by rw [g1, h1], fun k hk => ?_, fun p hp => ?_⟩
+  · rw [g2 k, if_pos ⟨hk, by omega⟩]
+    rw [matvecCell_eq cplx w ldm M mo vec vo fc k _ hw, h2 k hk, Finset.sum_range_add, add_assoc]
+  · rw [g2 p, if_neg (by omega)]; exact h3 p hp
+
+theorem matvecWhile_inv (cplx : Bool) (w ldm nrow ncol : Nat) (M : Array K) (mo : Nat) (vec : Array K) (vo : Nat)
+    (y0 : Array K) (hb : nrow ≤ y0.size) (hw : 1 ≤ w) :
+    ∀ (fuel : Nat) (st : Array K × Nat), MInv M mo ldm vec vo nrow y0 st.2 st.1 → st.2 ≤ ncol → ncol ≤ fuel + st.2 →
+      MInv M mo ldm vec vo nrow y0 (matvecWhile cplx w ldm nrow ncol M mo vec vo fuel st).2
+        (matvecWhile cplx w ldm nrow ncol M mo vec vo fuel st).1 ∧
+      (matvecWhile cplx w ldm nrow ncol M mo vec vo fuel st).2 ≤ ncol ∧
+      ncol ≤ (matvecWhile cplx w ldm nrow ncol M mo vec vo fuel st).2 + (w - 1) := by
+  intro fuel
+  induction fuel with
+  | zero => intro st inv h1 h2; exact ⟨inv, h1, by simp only [matvecWhile]; omega⟩
+  | succ fuel ih =>
+    intro st inv h1 h2
+    rw [matvecWhile]
+    by_cases hc : st.2 + (w - 1) < ncol
+    · rw [if_pos hc]
+      exact ih (matvecBlock cplx w ldm nrow M mo vec vo st.2 st.1, st.2 + w)
+        (matvecBlock_inv cplx w ldm nrow M mo vec vo st.2 y0 st.1 hb hw inv) (by simp only; omega) (by simp only; omega)
+    · rw [if_neg hc]; exact ⟨inv, h1, by omega⟩
+
+/-- **`matvec`, every `nrow`, `ncol`, `ldm`, both unrolling schemes**:
+`Mxvec_out[k] = Mxvec_in[k] + Σ_j vec[j] · M(k,j)`; nothing else is written -/
+theorem matvec_spec' (cplx : Bool) (ldm nrow ncol : Nat) (M : Array K) (mo : Nat) (vec : Array K) (vo : Nat) (y : Array K)
+    (hb : nrow ≤ y.size) :
+    (matvec cplx ldm nrow ncol M mo vec vo y).size = y.size ∧
+    (∀ k, k < nrow → (matvec cplx ldm nrow ncol M mo vec vo y)[k]! =
+      y[k]! + ∑ j ∈ range ncol, vec[vo + j]! * M[mo + (j * ldm + k)]!) ∧
+    (∀ p, nrow ≤ p → (matvec cplx ldm nrow ncol M mo vec vo y)[p]! = y[p]!) := by
+  have inv0 : MInv M mo ldm vec vo nrow y 0 y := ⟨rfl, fun k _ => by simp, fun _ _ => rfl⟩
+  have h8 : ∀ st : Array K × Nat, MInv M mo ldm vec vo nrow y st.2 st.1 → st.2 ≤ ncol → st.2 = 0 →
+      MInv M mo ldm vec vo nrow y (if cplx then st else matvecWhile cplx 8 ldm nrow ncol M mo vec vo ncol st).2
+        (if cplx then st else matvecWhile cplx 8 ldm nrow ncol M mo vec vo ncol st).1 ∧
+      (if cplx then st else matvecWhile cplx 8 ldm nrow ncol M mo vec vo ncol st).2 ≤ ncol := by
+    intro st inv h1 h0
+    cases cplx with
+    | true => exact ⟨inv, h1⟩
+    | false =>
+      have := matvecWhile_inv false 8 ldm nrow ncol M mo vec vo y hb (by omega) ncol st inv h1 (by omega)
+      exact ⟨this.1, this.2.1⟩
+  unfold matvec
+  dsimp only
+  obtain ⟨i1, b1⟩ := h8 (y, 0) inv0 (Nat.zero_le _) rfl
+  generalize (if cplx = true then (y, 0) else matvecWhile cplx 8 ldm nrow ncol M mo vec vo ncol (y, 0)) = s1 at i1 b1
+  obtain ⟨i2, b2, _⟩ := matvecWhile_inv cplx 4 ldm nrow ncol M mo vec vo y hb (by omega) ncol s1 i1 b1 (by omega)
+  generalize matvecWhile cplx 4 ldm nrow ncol M mo vec vo ncol s1 = s2 at i2 b2
+  obtain ⟨i3, b3, c3⟩ := matvecWhile_inv cplx 1 ldm nrow ncol M mo vec vo y hb (by omega) ncol s2 i2 b2 (by omega)
+  generalize matvecWhile cplx 1 ldm nrow ncol M mo vec vo ncol s2 = s3 at i3 b3 c3
+  have : s3.2 = ncol := by omega
+  rw [this] at i3
+  exact i3
+
+end matvec
+
+/-! ### usolve -/
+section usolve
+variable {K : Type} [Field K] [Inhabited K] [Conj K]
+
+/-- the mirrored `usolve` IS the column-oriented back substitution `usolveTo` of Lemmas/Trsv.lean
+(the diagonal-block step of the modelled `sp_trsv`), read off the array `M` with stride `ldm` -/
+theorem usolve_eq_usolveTo (ldm ncol : Nat) (M : Array K) (mo : Nat) (rhs : Array K) (ro : Nat) :
+    usolve ldm ncol M mo rhs ro =
+      usolveTo (fun ir jc => M[mo + (ir + jc * ldm)]!) (fun jc v => v / M[mo + (jc + jc * ldm)]!) ro ncol rhs ncol := rfl
+
+theorem usolve_spec' (ldm ncol : Nat) (M : Array K) (mo : Nat) (rhs : Array K) (ro : Nat) (hb : ro + ncol ≤ rhs.size)
+    (z : Nat → K)
+    (hz : ∀ i, i < ncol → z i = (rhs[ro + i]! - ∑ j ∈ Ico (i + 1) ncol, z j * M[mo + (i + j * ldm)]!) / M[mo + (i + i * ldm)]!) :
+    (usolve ldm ncol M mo rhs ro).size = rhs.size ∧
+    (∀ i, i < ncol → (usolve ldm ncol M mo rhs ro)[ro + i]! = z i) ∧
+    (∀ p, (p < ro ∨ ro + ncol ≤ p) → (usolve ldm ncol M mo rhs ro)[p]! = rhs[p]!) := by
+  rw [usolve_eq_usolveTo]
+  obtain ⟨h1, h2, h3⟩ := usolveTo_spec (fun ir jc => M[mo + (ir + jc * ldm)]!) (fun jc v => v / M[mo + (jc + jc * ldm)]!)
+    ro ncol rhs hb z hz ncol (le_refl _)
+  refine ⟨h1, fun i hi => ?_, h3⟩
+  rw [h2 i hi, if_pos (by omega)]
+
+end usolve
 end Slu.MyBlas2
